@@ -2,9 +2,11 @@ package table
 
 import (
 	"fmt"
+	"sync/atomic"
 	"testing"
 	"time"
 
+	"github.com/weedbox/pokerface"
 	"github.com/weedbox/pokertable"
 
 	"verif/harness/choose"
@@ -129,7 +131,36 @@ func c15Body(c *run.Ctx) {
 	// a late "more time" request arriving while the hand is being settled (issued from inside
 	// the settled notification): whatever it does, nothing may be left between hands
 	lateExtID, lateExtDur := "", 0
+	// a few cases let the backend fail the engine's own Next call behind a closed betting round
+	// (a remote hand engine that is unavailable at that moment): the closed round is still
+	// published, and it must be published without a deadline. The hand stops there (the engine
+	// does not retry), which ends the case.
+	var nextCalls, nextFailed int32
+	failNextAt := int32(-1)
+	if choose.Chance(c.Ch, "fault.next", 6) {
+		failNextAt = int32(c.Ch.Int("fault.next.ord", 0, 3))
+	}
+	o.OnStall = func(s *sim.Sim, h *sim.Hand) {
+		if atomic.LoadInt32(&nextFailed) > 0 {
+			s.Label("round_closed_while_backend_next_failed")
+			c.St.Case(s.Labels(), true, traceOf(s), sampleOf(s))
+			c.End()
+		}
+	}
 	o.Prepare = func(s *sim.Sim) {
+		if failNextAt >= 0 {
+			s.BE.FaultFn = func(ord int, kind string, gs *pokerface.GameState) bool {
+				if kind != "Next" {
+					return false
+				}
+				if atomic.AddInt32(&nextCalls, 1)-1 == failNextAt {
+					atomic.StoreInt32(&nextFailed, 1)
+					s.StepWait = 1200 * time.Millisecond // nothing more will come: do not wait the full step time
+					return true
+				}
+				return false
+			}
+		}
 		s.InCallback = func(sm *sim.Sim, name string, t *pokertable.Table) {
 			if lateExtID != "" && name == pokertable.TableStateEvent_GameSettled {
 				id := lateExtID
